@@ -322,6 +322,9 @@ func mapReduceWithPanicChan[T, U, V any](source <-chan T, panicChan *onceChan, m
 			err = e
 		} else if ok {
 			val = v
+		} else if options.ctx.Err() != nil {
+			// output was closed because the context ended, report that instead of no output
+			err = context.DeadlineExceeded
 		} else {
 			err = ErrReduceNoOutput
 		}
